@@ -32,11 +32,12 @@ REQUIRED = [P + t for t in (
     # R3: all sample rows of a shape (induction over the rows with the walker invariant)
     "rasterizeEdges_rows", "addShape_eq_addSpans", "walkRows_inv", "rasterizeEdges_walked", "rasterizeEdges_eq_addShape",
     # R3 at the entry points: pixman_rasterize_trapezoid, pixman_add_traps (one pixman_trap_t)
-    "rasterizeTrapezoid_eq_addShape", "addTrap_eq_addShape",
+    "rasterizeTrapezoid_eq_addShape", "addTrap_eq_addShape", "rasterizeTrapezoid_nothing", "rasterizeTrapezoid_offsets",
+    "addTrapezoids_eq_addShapes",
     # R5: triangle = its two trapezoids, every vertex order
-    "triangle_tiles", "triangle_inside_iff", "addTriangles_eq",
+    "triangle_tiles", "triangle_inside_iff", "addTriangles_eq", "addTriangle_eq_triCount",
     # R4
-    "rowCount_split", "pixelValue_add", "pixelCount_hsplit", "pixelCount_edgesplit", "row8_abut",
+    "rowCount_split", "pixelValue_add", "pixelCount_hsplit", "pixelCount_edgesplit", "pixelCount_move", "row8_abut",
     # R6
     "zeroSrc_table_sound", "zeroSrc_table_tight",
 )]
@@ -49,13 +50,17 @@ PARTIAL = {
                                       "InitOK (pixman_edge_step loses nothing: a right-leaning edge walked downwards starts at its top "
                                       "or has integral slope) and RowsOK (on each row the edge misses the lattice points, leans left, or "
                                       "has integral slope); outside it the equality is false for the code (findings T01..) and "
-                                      "rasterizeEdges_walked gives the exact-invariant form with the lost term. Not stated: offsets != 0 "
-                                      "(translation when nothing wraps), the no-sample-row case (nothing drawn), lists of shapes "
-                                      "(a fold of the single-shape theorem); all three are covered by the Spec oracle",
+                                      "rasterizeEdges_walked gives the exact-invariant form with the lost term. Also proved: no sample row "
+                                      "inside (rasterizeTrapezoid_nothing), offsets that do not wrap are a translation "
+                                      "(rasterizeTrapezoid_offsets, pixelCount_move), lists (addTrapezoids_eq_addShapes). Not stated: "
+                                      "pixman_add_traps with offsets / lists (one pixman_trap_t, offsets 0 only); a right-leaning edge "
+                                      "whose first sample row is exactly its top vertex (tie at that row) is outside RowsOK although "
+                                      "the walker is exact there; both covered by the Spec oracle",
     "triangle_tiles": "R5 is proved for every vertex order (sort by (y,x), left/right by the cross product sign, horizontal sides) "
                       "under TriFits (the int32 differences of clockwise() do not wrap) and area2 != 0; for collinear vertices the "
                       "equality with the symmetric inside test is false at lattice ties of the snapping (both draw nothing else); "
-                      "stated for offsets 0 (the driver's flag g evaluates it on the translated triangles of every addtri request)",
+                      "stated for offsets 0 (the driver's flag g evaluates it on the translated triangles of addtri requests up to "
+                      "60000 samples); addTriangle_eq_triCount composes it with R3 for one triangle in the exact region",
 }
 
 RASTER_OPS = {"rast", "addtz", "addtraps", "addtri"}
